@@ -1447,9 +1447,8 @@ func (m *Manager) AddPoolTransactions(txns []types.Transaction) (known bool, err
 // If it is undesirable to modify the transaction set, deep-copy it
 // before calling this method.
 func (m *Manager) UpdateV2TransactionSet(txns []types.V2Transaction, from, to types.ChainIndex) ([]types.V2Transaction, error) {
-	if from == to {
-		return txns, nil
-	}
+	// NOTE: from == to is not short-circuited: the basis still has to be known
+	// and the proofs valid for it
 	m.mu.Lock()
 	defer m.mu.Unlock()
 	return m.updateV2TransactionProofs(txns, from, to)
